@@ -259,6 +259,28 @@ def check_folding_does_not_select_statements(ctx, prog):
             ctx.ob("C04.K13.folding-does-not-select-what-is-compiled", "%s|%s@%d" % (k.split("::")[-1], c.name.split("::")[-1], n), culprit is None,
                    "a statement is compiled (or not) depending on the result of as_const() - a literal condition then behaves "
                    "differently from a variable with the same value (test at %s)" % culprit, f.where(c.bb))
+    # ... and the generator asks the folder for one purpose only: to emit the folded value.  Every `as_const()` call in the
+    # code generator (closures included) feeds the payload of a `LoadConst` (or a constant it negates first); a call whose
+    # answer is only *tested* (`filter(|e| e.as_const().is_none())`: "a constant loop filter needs no selecting pass")
+    # changes what is emitted for literals as opposed to variables of the same value.
+    for k, f in prog.fns.items():
+        if not k.startswith("minijinja::compiler::codegen::"):
+            continue
+        for c in f.calls():
+            if not c.name.endswith("::as_const"):
+                continue
+            n += 1
+            feeds = False
+            for g in [f]:
+                for bb, i, st in g.all_stmts():
+                    rv = st.get("rv")
+                    if rv and rv["k"] == "agg" and rv.get("variant") == "LoadConst" and rv["ops"] and "c" not in rv["ops"][0]:
+                        for o in flow.origins(g, rv["ops"][0], through_calls=lambda q: 0 if q.name.endswith(("::clone", "::unwrap", "::neg")) else None):
+                            if o.kind == "call" and o.call.bb == c.bb and o.call.name == c.name:
+                                feeds = True
+            ctx.ob("C04.K13.folding-does-not-select-what-is-compiled", "%s|as_const-feeds-LoadConst" % (k.split("codegen::")[-1]), feeds,
+                   "the code generator asks the constant folder here without emitting the folded value: the answer can only "
+                   "decide *what* is generated, which makes a literal behave unlike a variable of the same value", f.where(c.bb))
     return n
 
 
